@@ -406,6 +406,16 @@ def hUserAgent : Nat := 101
 def vDefaultUA : Nat := 900
 def vCtText : Nat := 901
 def vCtForm : Nat := 902
+/-- the EMPTY header value `""` (a value like any other for the merge: `len(r.Headers[k])` counts it;
+on the wire an empty `User-Agent` means "send none", transport.go `write`) -/
+def vEmpty : Nat := 7
+
+/-- transport.go `Request.write`: `User-Agent` is written from its FIRST value, and not at all when
+that value is empty; without the key the default is sent. -/
+def finishUA (h : AMap) : AMap :=
+  match h.get hUserAgent with
+  | [] => h.set hUserAgent [vDefaultUA]
+  | v :: _ => if v == vEmpty then h.del hUserAgent else h
 
 /-- `parseRequestHeader`: a client header is used unless the request has values for that key. -/
 def mergeHeaders (c r : AMap) : AMap :=
@@ -504,7 +514,7 @@ def emit (cl rq : VOwner) (method mode : Nat) (path : List Seg) : Option ReqObs 
     | .form _ => hdr0.set hContentType [vCtForm]
     | .raw _ => if (hdr0.get hContentType).isEmpty then hdr0.set hContentType [vCtText] else hdr0
     | .none => hdr0
-  let hdr2 := if (hdr1.get hUserAgent).isEmpty then hdr1.set hUserAgent [vDefaultUA] else hdr1
+  let hdr2 := finishUA hdr1
   some {
     method := method
     base := if mode == 1 then base else 0
